@@ -3,6 +3,7 @@ from __future__ import annotations
 
 import warnings
 
+import bs4
 import soupsieve as sv
 
 from engine import choose, common, fullgrammar as FG, htmldoc, selast as S, trees, witness
@@ -51,13 +52,42 @@ def gen_complex(ch, g):
 
 
 def gen_case(ch, tier):
-    recipe, flavour = htmldoc.gen_html_doc(ch, depth=2 if tier == 'quick' else 3)
+    # a third of the documents are rich in what the per-call memos key on (byte-identical sibling forms, radio groups,
+    # meta languages): whether an alternative is evaluated at all on an element depends on the other alternatives
+    recipe, flavour = htmldoc.gen_html_doc(ch, depth=2 if tier == 'quick' else 3, memo_rich=ch.p(0.35))
     doc = trees.materialise(recipe)
     if not doc.all_elements():
         recipe = {'kind': 'html-api', 'top': [trees.E('a')], 'detach': None}
         doc = trees.materialise(recipe)
     g = witness.Gen(ch, doc, WCFG)
     a, b = gen_complex(ch, g), gen_complex(ch, g)
+    if ch.p(0.2):
+        memo = ch.pick(({'p': 'default'}, {'p': 'indeterminate'}, {'p': 'checked'}, {'p': 'lang', 'vals': [ch.pick(('en', 'fr', '', '*'))]},
+                        {'p': 'dir', 'd': ch.pick(('ltr', 'rtl'))}, {'p': 'in-range'}, {'p': 'root'}))
+        b = [{'comb': None, 'c': {'tag': None, 'ids': [], 'classes': [], 'attrs': [], 'ps': [memo]}}]
+        # steer A towards an element the memoising alternative matches (only steering: the laws judge)
+        try:
+            with warnings.catch_warnings():
+                warnings.simplefilter('ignore')
+                hit = sv.select(S.render_complex(b), doc.target)
+        except Exception:  # noqa: BLE001
+            hit = []
+        if hit and ch.p(0.8):
+            el = hit[ch.i(0, len(hit) - 1)]
+            a = g.complex_for(el, 2)
+            if ch.p(0.5):
+                # ... and tell it apart from look-alikes by position: `<ancestor>:nth-child(i) <name>`
+                anc = el.parent
+                while anc is not None and getattr(anc, 'name', None) not in ('form', 'fieldset', 'div', 'body') and anc.parent is not None:
+                    anc = anc.parent
+                if anc is not None and isinstance(anc, bs4.Tag) and anc.parent is not None:
+                    sibs = [x for x in anc.parent.contents if isinstance(x, bs4.Tag)]
+                    pos = 1 + [id(x) for x in sibs].index(id(anc))
+                    bare = lambda name, ps: {'tag': {'ns': None, 'name': name}, 'ids': [], 'classes': [], 'attrs': [], 'ps': ps}  # noqa: E731
+                    a = [{'comb': None, 'c': bare(anc.name, [{'p': 'nth-child', 'a': 0, 'b': pos, 'of': None}])},
+                         {'comb': ' ', 'c': bare(el.name, [])}]
+        if ch.p(0.5):
+            a, b = b, a
     x = g.describe(ch.pick(g.elems), 0, bare=True) if ch.p(0.6) else FG.gen_compound(ch, FGCFG, 1)
     junk = ch.pick(('', ' ', 'p >', 'div +', 'span ~ ', 'a > ', '/**/', 'input +')) if ch.p(0.3) else None
     return {'tree': recipe, 'flavour': flavour, 'A': a, 'B': b, 'X': x, 'ns': ch.pick(sorted(NS_MAPS)), 'junk': junk}, doc
